@@ -108,6 +108,80 @@ class _Fresh:
         return "$%d" % self.n
 
 
+def infer_types(sig, stmts, vt=None):
+    """Variable name -> type for a rule body (signature-driven propagation to a fixed point)."""
+    vt = {} if vt is None else vt
+
+    def tterm(t, expect):
+        ch = False
+        if t["k"] == "var":
+            if expect is not None and t["n"] not in vt:
+                vt[t["n"]] = expect
+                ch = True
+            return vt.get(t["n"]), ch
+        if t["k"] == "wild":
+            return expect, False
+        if t["f"] not in sig.funcs:
+            raise RefError("unknown function " + t["f"])
+        at, res = sig.funcs[t["f"]]
+        for a, ty in zip(t["args"], at):
+            ch |= tterm(a, ty)[1]
+        return res, ch
+
+    def tatom(a):
+        k = a["k"]
+        ch = False
+        if k == "pred":
+            if a["p"] not in sig.preds:
+                raise RefError("unknown predicate " + a["p"])
+            for t, ty in zip(a["args"], sig.preds[a["p"]]):
+                ch |= tterm(t, ty)[1]
+        elif k == "eq":
+            tl, c1 = tterm(a["l"], None)
+            tr, c2 = tterm(a["r"], None)
+            ch |= c1 | c2
+            if tl is not None:
+                ch |= tterm(a["r"], tl)[1]
+            if tr is not None:
+                ch |= tterm(a["l"], tr)[1]
+        elif k == "def":
+            ty, c = tterm(a["t"], None)
+            ch |= c
+            if a.get("v") and ty is not None and a["v"] not in vt:
+                vt[a["v"]] = ty
+                ch = True
+        elif k == "type":
+            if a["v"] not in vt:
+                vt[a["v"]] = a["ty"]
+                ch = True
+        return ch
+
+    def walk(stmts):
+        ch = False
+        for s in stmts:
+            if s["k"] in ("if", "then"):
+                ch |= tatom(s["atom"])
+            elif s["k"] == "branch":
+                for b in s["blocks"]:
+                    ch |= walk(b)
+            elif s["k"] == "match":
+                for c in s["cases"]:
+                    if c["ctor"] in sig.funcs:
+                        at, res = sig.funcs[c["ctor"]]
+                        ch |= tterm(s["term"], res)[1]
+                        for v, ty in zip(c["vars"], at):
+                            if v != "_" and v not in vt:
+                                vt[v] = ty
+                                ch = True
+                    ch |= walk(c["body"])
+        return ch
+
+    for _ in range(20):
+        if not walk(stmts):
+            break
+    return vt
+
+
 def flatten_term(t, fresh, out):
     """Returns a variable name denoting t; appends graph atoms to out."""
     if t["k"] == "var":
@@ -120,7 +194,7 @@ def flatten_term(t, fresh, out):
     return r
 
 
-def flatten_if_atom(a, fresh):
+def flatten_if_atom(a, fresh, vt=None):
     out = []
     k = a["k"]
     if k == "pred":
@@ -129,7 +203,10 @@ def flatten_if_atom(a, fresh):
     elif k == "eq":
         l = flatten_term(a["l"], fresh, out)
         r = flatten_term(a["r"], fresh, out)
-        out.append(("eq", l, r))
+        ty = None
+        if vt is not None:
+            ty = vt.get(l) or vt.get(r)
+        out.append(("eq", l, r, ty))
     elif k == "def":
         flatten_term(a["t"], fresh, out)
     elif k == "type":
@@ -166,10 +243,17 @@ def solve(m, flat, env):
             if ok:
                 yield from solve(m, rest, e2 if e2 is not None else env)
     elif a[0] == "eq":
-        _, l, r = a
+        _, l, r, ety = a
         lv, rv = env.get(l), env.get(r)
         if lv is None and rv is None:
-            raise RefError("equality between two unbound variables")
+            if ety is None:
+                raise RefError("equality between two unbound variables of unknown type")
+            for e in m.roots(ety):
+                e2 = dict(env)
+                e2[l] = e
+                e2[r] = e
+                yield from solve(m, rest, e2)
+            return
         if lv is None:
             e2 = dict(env)
             e2[l] = rv
@@ -249,7 +333,7 @@ def run_rule(m, stmts, env, on_then, fresh, sig, cont=()):
     s = stmts[0]
     rest = stmts[1:]
     if s["k"] == "if":
-        flat = flatten_if_atom(s["atom"], fresh)
+        flat = flatten_if_atom(s["atom"], fresh, getattr(fresh, "vt", None))
         for e2 in list(solve(m, flat, env)):
             run_rule(m, rest, e2, on_then, fresh, sig, cont)
     elif s["k"] == "then":
@@ -264,7 +348,7 @@ def run_rule(m, stmts, env, on_then, fresh, sig, cont=()):
         k2 = ((rest, frozenset(env.keys())),) + tuple(cont)
         for c in s["cases"]:
             pat = {"k": "app", "f": c["ctor"], "args": [({"k": "wild"} if v == "_" else {"k": "var", "n": v}) for v in c["vars"]]}
-            flat = flatten_if_atom({"k": "eq", "l": s["term"], "r": pat}, fresh)
+            flat = flatten_if_atom({"k": "eq", "l": s["term"], "r": pat}, fresh, getattr(fresh, "vt", None))
             for e2 in list(solve(m, flat, env)):
                 run_rule(m, c["body"], e2, on_then, fresh, sig, k2)
     else:
@@ -294,6 +378,7 @@ def satisfied(m, th, limit=5):
             seen.setdefault(k, v)
     for rule in th.get("rules", []):
         fresh = _Fresh()
+        fresh.vt = infer_types(sig, rule["body"])
 
         def on_then(atom, env, rule=rule):
             ok, e2 = then_holds(m, atom, env)
@@ -328,6 +413,7 @@ def chase(th, m, max_rounds=60, max_elems=60, max_actions=4000):
             pend_defs = []
             for rule in th.get("rules", []):
                 fresh = _Fresh()
+                fresh.vt = infer_types(sig, rule["body"])
 
                 def on_then(atom, env):
                     k = atom["k"]
